@@ -437,7 +437,7 @@ def generate_struct_get_byte_size(node):
             if m.is_dynamic or m.greedy:
                 elems += ['{0}.size() * {1}'.format(m.name, _get_byte_size(m))]
             else:
-                bytes_ += m.byte_size + m.padding
+                bytes_ += m.byte_size + max(m.padding, 0)
         else:
             if m.is_dynamic or m.greedy:
                 elems += [
